@@ -23,9 +23,10 @@ RULE = ('one evaluation = one seeded simulated run of 2-4 contenders (threads sh
 RULE += ' ' + 'In one run in seven every contender first takes an uncontended primitive of the same kind and key on a cache of its own and keeps it throughout.'
 RULE += ' ' + 'In a fifth of the runs Lock and BoundedSemaphore releases are made under another thread identity than the acquire.'
 RULE += ' ' + 'One run in sixteen builds the primitive with expire=10 (holders at t=0-1 and t=9-12, a third contender at 10.5).'
+RULE += ' ' + 'Two barrier runs in five rely on the default name (every contender wraps its own closure of one qualified name).'
 ASSUMPTIONS = ['polling acquire loops (1 ms virtual sleeps) are run with critical sections of at most a few virtual milliseconds',
                'lock keys carry no expiry in this check']
-PROBES = ('contended_acquire', 'nested_rlock', 'bad_release_refused', 'lock_wait', 'barrier_calls', 'with_statement', 'cs_raised', 'barrier_mixed_with_primitive', 'fresh_handles', 'json_disk', 'long_section', 'outer_same_key', 'released_by_another_thread', 'leased')
+PROBES = ('contended_acquire', 'nested_rlock', 'bad_release_refused', 'lock_wait', 'barrier_calls', 'with_statement', 'cs_raised', 'barrier_mixed_with_primitive', 'fresh_handles', 'json_disk', 'long_section', 'outer_same_key', 'released_by_another_thread', 'leased', 'barrier_default_name')
 TECHNIQUE = 'deterministic simulation: seeded schedules of contenders with virtual-time polling; holder-count witness invariant checked at every critical-section entry; bounded-progress check'
 LEVEL_TEXT = ('seeded exploration of contender interleavings at seam granularity (and source lines for shared objects) with a witness '
               'invariant (holders <= 1, <= value for the semaphore, re-entrancy only by the owner) evaluated during the run, plus '
@@ -56,6 +57,7 @@ def gen_case(seed, tier):
     # barrier: contenders call two DIFFERENT functions wrapped under one barrier name, and (in some runs) the last contender
     # uses the primitive itself on that name - all of them are one exclusion group
     cfg['barrier_mix'] = rng.random() < 0.4
+    cfg['barrier_noname'] = rng.random() < 0.4
     if rng.random() < 0.04 and kind in ('lock', 'rlock', 'sem'):
         # one very long critical section on a machine that oversleeps (every sleep takes at least 50 ms): the waiters poll a
         # couple of thousand times and still get their turn
@@ -186,6 +188,13 @@ def run_case(case):
             if cfg.get('barrier_mix') is not None:
                 work.__module__, work.__qualname__ = 'jobs', 'work_%d' % (which % 2)
                 work.__name__ = work.__qualname__
+            if cfg.get('barrier_noname') and not cfg.get('barrier_mix'):
+                # the documented default: no name given, the key is the function's qualified name - every worker defines the same
+                # nested function (its own object) and they exclude one another
+                work.__module__, work.__qualname__ = 'jobs', 'serve.<locals>.rebuild'
+                work.__name__ = 'rebuild'
+                probes['barrier_default_name'] = 1
+                return dc.barrier(cache, factory)(work)
             return dc.barrier(cache, factory, name='the-barrier')(work)
 
         # fork(): every child gets its own copy of the object graph as it was in the parent.  Simulated with a pickle
